@@ -19,7 +19,8 @@ EXPLANATION = (
     'hand-off reaches the set removed at commit/rollback. R14.4: a file '
     'that was moved aside is always registered in the backup list. R14.5: a '
     'setup failure is recorded as such. Fault model: every FS primitive '
-    'that can raise, at every occurrence.')
+    'that can raise, at every occurrence.'
+    ' R14.6: a reused record is registered only after the fallible apply step (R1.5 order).')
 
 RESERVE = 'BuildDirs.started_building_file'
 RELEASE = 'BuildDirs.error_building_file'
